@@ -72,16 +72,16 @@ PROPS = {
         "Coq proof by invariant over the solver model: every store entry is justified by its kind and valid (external constructors, merged dependents, rule of resolution), preserved by unit propagation, conflict resolution, backtracking and the main loop",
         "4 Coq theorems: for every lawful VersionSet, registry, well-behaved trace and fuel, every incompatibility in the model's store (external, merged, learned, intermediate prior causes; runs ending in Ok, NoSolution, errors or cut short) is valid: no solution makes all its terms true. Tie: full-trace correspondence; oracle: validity of every store entry of the replayed run against all solutions of the registry (complete enumeration on small registries).",
         "The store itself is the model's (the Rust arena is private); it is tied to the code through the trace/tree correspondence."),
-    "C07": solver_prop(None, "other",
+    "C07": solver_prop("Props/Properties_C07.v", "other",
         "repeat-run comparison in one process and across fresh processes, integer and string package names; the Coq model is a function of the provider answers",
-        "A Gallina function is deterministic by construction, so the content is that the Rust code is such a function. Every case is run twice in-process (trace and result compared) and the whole case stream is produced a second time by a fresh process with a different environment and compared byte for byte; the model must reproduce every trace from the recorded answers alone.",
+        "A Gallina function is deterministic by construction, so the content is that the Rust code is such a function. Every case is run twice in-process (trace and result compared) and the whole case stream is produced a second time by a fresh process with a different environment and compared byte for byte; the model must reproduce every trace from the recorded answers alone. Coq (1 theorem): the model's result depends only on the consumed prefix of the answers.",
         extra={"cross_process": True}),
     "C12": solver_prop(None, "other",
         "protocol checker on every recorded callback trace + Coq model that consumes the trace in protocol order",
         "NOT yet a Coq theorem about the model's consumed trace (planned). Every recorded trace is checked for the six protocol clauses (get_dependencies only right after the choose_version that returned that version, at most once per (p,v); choose_version with a non-empty set identical to the last prioritize set; first query root with the singleton; should_cancel first and between choose_version calls), and the model only accepts traces in which each call is the one it would make.", domains=("solver", "faults")),
-    "C13": solver_prop(None, "other",
+    "C13": solver_prop("Props/Properties_C13.v", "other",
         "fault enumeration: every position of the fault-free trace, every callback kind, plus out-of-set answers; compared with the Coq model",
-        "For each base run a fault is injected at every index of its callback trace (error at should_cancel / choose_version / get_dependencies; out-of-set version at choose_version): the faulty trace must equal the fault-free one up to the fault, stop there, and the result must be the matching error variant with the same payload (package and version for get_dependencies) or Failure for an out-of-set version; the model reproduces each faulty run.",
+        "For each base run a fault is injected at every index of its callback trace (error at should_cancel / choose_version / get_dependencies; out-of-set version at choose_version): the faulty trace must equal the fault-free one up to the fault, stop there, and the result must be the matching error variant with the same payload (package and version for get_dependencies) or Failure for an out-of-set version; the model reproduces each faulty run. Coq (2 theorems, Props/Properties_C13.v): the model's result is a function of the consumed trace prefix (no further call matters once the outcome is determined) and every error outcome is explained by an error answer of the matching callback with the same package and version (or an out-of-set answer for Failure).",
         domains=("faults",)),
     "C14": solver_prop(None, "other",
         "per-decision check on the Coq model's decision log replayed from the Rust trace: picked package has maximal queue priority, every undecided positive package is queued with a priority reported for its current set",
